@@ -102,7 +102,7 @@ def c02_xor_no_key_is_copy(case, result):
         return False
     xc = [n for n, _ in case['x']]; yc = [n for n, _ in case['y']]
     lc = case.get('lcols')
-    items = [c for c in xc if c in yc] if lc is None else (lc[1] if lc[0] == 'list' else [lc])
+    items = [c for c in xc if c in yc] if lc is None else (lc[1] if lc[0] in ('list', 'tuple') else [lc])
     ny = len(case['y'][0][1]) if case['y'] else 0
     return len(items) == 0 and ny > 0 and 'anti-join' in (result.get('viol') or '')
 
